@@ -256,12 +256,13 @@ def gen_lat(tier, seed):
 
 
 def gen_cases(tier, seed):
-    for c in gen_pin(tier, seed):
-        yield c
-    for c in gen_milp(tier, seed):
-        yield c
-    for c in gen_lat(tier, seed):
-        yield c
+    import os
+    only = os.environ.get('RSMC_C07_SUB')          # development aid: run one sub-exploration only
+    for name, g in (('pin', gen_pin), ('milp', gen_milp), ('lat', gen_lat)):
+        if only and only != name:
+            continue
+        for c in g(tier, seed):
+            yield c
 
 
 def exhaustive(tier):
